@@ -43,6 +43,7 @@ SEAMSIM_DBG = os.path.join(TGT_SEAMSIM, "checked", "seamsim")
 TGT_PARSIM_EXP = os.path.join(HERE, "target-parsim-exp" + TGT_SUFFIX)
 TGT_SEAMSIM_EXP = os.path.join(HERE, "target-seamsim-exp" + TGT_SUFFIX)
 PARSIM_EXP = os.path.join(TGT_PARSIM_EXP, "release", "parsim")
+PARSIM_DBG = os.path.join(TGT_PARSIM, "checked", "parsim")
 SEAMSIM_EXP = os.path.join(TGT_SEAMSIM_EXP, "release", "seamsim")
 
 ENV = dict(os.environ, CARGO_NET_OFFLINE="true")
@@ -67,12 +68,15 @@ def log(*a):
 # each part: (engine, sub-property, {tier: {"count": workloads, "scheds": schedules per workload}})
 PLANS = {
     "C05": [("parsim", "C05", {"quick": dict(count=5000, scheds=20), "thorough": dict(count=60000, scheds=40)}),
+            ("parsim-checked", "C05", {"quick": dict(count=800, scheds=8), "thorough": dict(count=10000, scheds=16)}),
             ("parsim-exp", "C05", {"thorough": dict(count=6000, scheds=12)}),
             ("miri", "C05E3", {"thorough": dict(count=32)})],
-    "C03": [("parsim", "C03", {"quick": dict(count=5000, scheds=12), "thorough": dict(count=50000, scheds=30)})],
+    "C03": [("parsim", "C03", {"quick": dict(count=5000, scheds=12), "thorough": dict(count=50000, scheds=30)}),
+            ("parsim-checked", "C03", {"quick": dict(count=800, scheds=6), "thorough": dict(count=8000, scheds=12)})],
     "C06": [
         ("parsim", "C06", {"quick": dict(count=6000, scheds=16), "thorough": dict(count=60000, scheds=32)}),
         ("parsim", "C06N", {"quick": dict(count=1000, scheds=10), "thorough": dict(count=10000, scheds=20)}),
+        ("parsim-checked", "C06", {"quick": dict(count=800, scheds=8), "thorough": dict(count=10000, scheds=16)}),
         ("miri", "C06E3", {"thorough": dict(count=32)}),
     ],
     "C10": [
@@ -130,6 +134,8 @@ def build(engines):
         took["seamsim"] = run_cargo(os.path.join(HERE, "seamsim"), ["--release"], "seamsim")
     if "seamsim-checked" in engines:
         took["seamsim-checked"] = run_cargo(os.path.join(HERE, "seamsim"), ["--profile", "checked"], "seamsim (checked profile)")
+    if "parsim-checked" in engines:
+        took["parsim-checked"] = run_cargo(os.path.join(HERE, "parsim"), ["--profile", "checked"], "parsim (checked profile)")
     if "parsim-exp" in engines:
         took["parsim-exp"] = run_cargo(os.path.join(HERE, "parsim"), ["--release", "--features", "experimental"], "parsim (experimental feature)", TGT_PARSIM_EXP)
     if "seamsim-exp" in engines:
@@ -138,7 +144,7 @@ def build(engines):
 
 
 def engine_bin(engine):
-    return {"parsim": PARSIM, "seamsim": SEAMSIM, "seamsim-checked": SEAMSIM_DBG, "parsim-exp": PARSIM_EXP, "seamsim-exp": SEAMSIM_EXP}[engine]
+    return {"parsim": PARSIM, "seamsim": SEAMSIM, "seamsim-checked": SEAMSIM_DBG, "parsim-exp": PARSIM_EXP, "seamsim-exp": SEAMSIM_EXP, "parsim-checked": PARSIM_DBG}[engine]
 
 
 # ----------------------------------------------------------------------------
@@ -657,7 +663,7 @@ def write_evidence(prop, tier, seed, parts, wall, violations, known_matched, bui
         for x in merged.get("samples", []):
             if len(samples) < 6:
                 samples.append({"part": "%s/%s" % (engine, sub), "case": x})
-        rules.append("[%s/%s] %s" % (engine, sub, merged.get("rule") or RULES.get(engine.replace("-exp", ""), "")))
+        rules.append("[%s/%s] %s" % (engine, sub, merged.get("rule") or RULES.get(engine.replace("-exp", "").replace("-checked", ""), "")))
         if "exhaustive" in merged:
             exhaustive = merged["exhaustive"] if exhaustive is None else (exhaustive and merged["exhaustive"])
     for x in cand_samples:
@@ -830,7 +836,7 @@ def chan_conformance(count):
 
 
 def cmd_setup():
-    took = build({"parsim", "seamsim", "seamsim-checked"})
+    took = build({"parsim", "seamsim", "seamsim-checked", "parsim-checked"})
     conf = chan_conformance(4000)
     log("setup ok: %s; channel model conforms to crossbeam-channel on %d sequences / %d operations" % (took, conf["sequences"], conf["operations"]))
     return 0
